@@ -110,6 +110,32 @@ def timex_calendar_invalid(tx):
     return not (1 <= d <= days_in_month(y, mo))
 
 
+_TX_WEEK = re.compile(r'^(\d{4})-W(\d{2})$')
+_TX_MONTH = re.compile(r'^(\d{4})-(\d{2})$')
+_TX_YEAR = re.compile(r'^(\d{4})$')
+
+
+def definite_period(tx):
+    """(start, end) that a fully definite week / month / year TIMEX denotes, else None"""
+    try:
+        m = _TX_WEEK.match(tx)
+        if m:
+            monday = date.fromisocalendar(int(m.group(1)), int(m.group(2)), 1)
+            return monday.isoformat(), (monday + timedelta(days=7)).isoformat()
+        m = _TX_MONTH.match(tx)
+        if m:
+            y, mo = int(m.group(1)), int(m.group(2))
+            nxt = date(y + 1, 1, 1) if mo == 12 else date(y, mo + 1, 1)
+            return date(y, mo, 1).isoformat(), nxt.isoformat()
+        m = _TX_YEAR.match(tx)
+        if m:
+            y = int(m.group(1))
+            return date(y, 1, 1).isoformat(), date(y + 1, 1, 1).isoformat()
+    except ValueError:
+        return None
+    return None
+
+
 def wellformed(ent):
     """C11 oracle on one entity record from run().  Returns None or (kind, detail)."""
     s, e, text, type_name, vals = ent
@@ -160,8 +186,22 @@ def wellformed(ent):
                 if not isinstance(x, str) or not _valid(kind, x):
                     return ('%s-%s-malformed' % (typ, name), x)
             if typ == 'daterange' and isinstance(st, str) and isinstance(en, str) and _DATE.match(st) and _DATE.match(en):
-                if not st < en:
+                mt = _TRIPLE.match(tx or '')
+                reversed_input = bool(mt and mt.group(3).startswith('P-'))
+                if mt:
+                    pa, pb = parse_endpoint(mt.group(1)), parse_endpoint(mt.group(2))
+                    if pa and pa[0] == 'date' and pa[1].isoformat() != st:
+                        return ('daterange-start-disagrees-with-timex', '%s: %s' % (tx, st))
+                    if pb and pb[0] == 'date' and pb[1].isoformat() != en:
+                        return ('daterange-end-disagrees-with-timex', '%s: %s' % (tx, en))
+                if not st < en and not reversed_input:
                     return ('daterange-start-not-before-end', '%s .. %s' % (st, en))
+                if 'Mod' not in v:
+                    # a definite week / month / year TIMEX: the resolved range must lie inside the period it names
+                    # ("later this year", "year to date" legitimately resolve to a part of it)
+                    exp = definite_period(tx or '')
+                    if exp and not (exp[0] <= st and en <= exp[1]):
+                        return ('daterange-outside-its-timex-period', '%s: %s .. %s' % (tx, st, en))
         elif typ in ('set',):
             pass
         else:
